@@ -16,5 +16,6 @@ func NewMessageHeader(typeOf RequestType) *Header {
 
 // ToString returns customized string
 func (its *Header) ToString() string {
-	return fmt.Sprintf("%s|%s|%s", its.Version, its.Type, its.Agent)
+	// through the generated getters: a message may come without its header
+	return fmt.Sprintf("%s|%s|%s", its.GetVersion(), its.GetType(), its.GetAgent())
 }
